@@ -88,6 +88,19 @@ def _headers_hash(src):
     return h.hexdigest()
 
 
+def cache_dir(src):
+    """facts of /repo/src are cached under /verif/.cache; facts of a scratch copy (self-test runs with --src, positive
+    controls) are cached next to the copy, so that they disappear with it instead of piling up (they did: 34 GB)"""
+    if os.path.abspath(src) == os.path.abspath(SRC):
+        return CACHE
+    d = os.path.join(os.path.dirname(os.path.abspath(src)), ".vfacts")
+    try:
+        os.makedirs(d, exist_ok=True)
+        return d
+    except OSError:
+        return CACHE            # read-only location: fall back to the shared cache
+
+
 def _extract_one(src, fn, flags, hh, plugin_hash, headers=False):
     key = hashlib.sha256()
     key.update(_read(os.path.join(src, fn)))
@@ -96,7 +109,7 @@ def _extract_one(src, fn, flags, hh, plugin_hash, headers=False):
     key.update(plugin_hash.encode())
     key.update(b"H" if headers else b"")
     key.update(src.encode())
-    out = os.path.join(CACHE, "%s.%s.json" % (fn.replace("/", "_"), key.hexdigest()[:20]))
+    out = os.path.join(cache_dir(src), "%s.%s.json" % (fn.replace("/", "_"), key.hexdigest()[:20]))
     if not os.path.exists(out):
         tmp = out + ".%d.tmp" % os.getpid()
         cmd = ["clang", "-fsyntax-only"] + flags + [
@@ -129,7 +142,7 @@ def extract_all(src=None, only=None):
     src = src or SRC
     if not os.path.exists(PLUGIN):
         raise AnalysisBroken("plugin not built: run setup (make -C /verif)")
-    os.makedirs(CACHE, exist_ok=True)
+    os.makedirs(cache_dir(src), exist_ok=True)
     files = library_sources(src)
     flags = build_flags(src)
     hh = _headers_hash(src)
@@ -153,8 +166,9 @@ def extract_host_headers(src=None):
     hdrs = [h for h in PUBLIC_HEADERS if os.path.exists(os.path.join(src, h))]
     if "vnadata.h" not in hdrs:
         raise AnalysisBroken("vnadata.h missing")
-    os.makedirs(CACHE, exist_ok=True)
-    host = os.path.join(CACHE, HOST_NAME)
+    cdir = cache_dir(src)
+    os.makedirs(cdir, exist_ok=True)
+    host = os.path.join(cdir, HOST_NAME)
     text = "".join('#include "%s"\n' % h for h in hdrs)
     if not os.path.exists(host) or _read(host).decode() != text:
         tmp = host + ".%d" % os.getpid()
@@ -163,7 +177,7 @@ def extract_host_headers(src=None):
         os.replace(tmp, host)
     # compile from src/ so that -I. works; give absolute path to host file
     key = hashlib.sha256((text + hh + ph + " ".join(flags) + src).encode()).hexdigest()[:20]
-    out = os.path.join(CACHE, "host.%s.json" % key)
+    out = os.path.join(cdir, "host.%s.json" % key)
     if not os.path.exists(out):
         tmp = out + ".%d.tmp" % os.getpid()
         cmd = ["clang", "-fsyntax-only"] + flags + [
